@@ -427,47 +427,131 @@ func (p *Program) ruleCollectionSearch(c *Check) {
 			}}
 		p.runE8(c, row)
 	}
-	// indexed arm
-	var rectParam, iterParam string
+	// indexed arm: with a child index present, Search hands the query rectangle's corners to the
+	// index and forwards each stored child to the callback, returning its verdict
+	p.ruleSearchIndexed(c, fn, name)
+}
+
+func (p *Program) ruleSearchIndexed(c *Check, fn *types.Func, name string) {
+	fd, pkg := p.Decl(fn), p.DeclPkg(fn)
+	info := pkg.TypesInfo
+	var iterObj types.Object
 	for _, f := range fd.Type.Params.List {
 		for _, n := range f.Names {
 			if _, ok := f.Type.(*ast.FuncType); ok {
-				iterParam = n.Name
-			} else {
-				rectParam = n.Name
+				iterObj = info.Defs[n]
 			}
 		}
 	}
-	okTree := false
+	// the literal handed to the index search (a call on the tree field with a function literal argument)
+	var treeLit *ast.FuncLit
 	ast.Inspect(fd.Body, func(n ast.Node) bool {
 		call, ok := n.(*ast.CallExpr)
-		if !ok || !strings.HasSuffix(types.ExprString(call.Fun), ".tree.Search") || len(call.Args) != 3 {
+		if !ok || treeLit != nil {
 			return true
 		}
-		a0, a1 := p.src(call.Args[0]), p.src(call.Args[1])
-		lit, isLit := call.Args[2].(*ast.FuncLit)
-		if !isLit || len(lit.Body.List) != 1 {
-			return true
-		}
-		ret, isRet := lit.Body.List[0].(*ast.ReturnStmt)
-		if !isRet || len(ret.Results) != 1 {
-			return true
-		}
-		rc, isCall := ret.Results[0].(*ast.CallExpr)
-		if isCall && types.ExprString(rc.Fun) == iterParam && len(rc.Args) == 1 &&
-			strings.Contains(a0, rectParam+".Min.X") && strings.Contains(a0, rectParam+".Min.Y") &&
-			strings.Contains(a1, rectParam+".Max.X") && strings.Contains(a1, rectParam+".Max.Y") {
-			if ta, ok := rc.Args[0].(*ast.TypeAssertExpr); ok && len(lit.Type.Params.List) >= 1 {
-				last := lit.Type.Params.List[len(lit.Type.Params.List)-1]
-				if len(last.Names) > 0 && types.ExprString(ta.X) == last.Names[len(last.Names)-1].Name {
-					okTree = true
+		if sel, ok := ast.Unparen(call.Fun).(*ast.SelectorExpr); ok && sel.Sel.Name == "Search" && strings.Contains(types.ExprString(sel.X), "tree") {
+			for _, a := range call.Args {
+				if l, ok := ast.Unparen(a).(*ast.FuncLit); ok {
+					treeLit = l
 				}
 			}
 		}
 		return true
 	})
-	c.Expect(okTree, "E10.search", name+"#indexed", p.declPos(fn), "the indexed arm searches the query rectangle and hands each stored child to the callback, returning its verdict",
-		"the indexed arm does not search [rect.Min, rect.Max] and forward iter(child)'s result: early stop or the candidate set differ from the linear arm")
+	corner := func(v *val, x, y string) bool {
+		return v != nil && v.k == kStruct && v.f["0"] != nil && v.f["1"] != nil && v.f["0"].name == x && v.f["1"].name == y
+	}
+	row := &e8row{id: name + "#indexed", fn: fn, rangeOnce: true, opaquePkg: map[*types.Package]bool{p.Geom.Types: true},
+		what: "with a child index present, the index is searched once with the corners (rect.Min, rect.Max) of the query rectangle and the linear scan is not used",
+		spec: func(a *e8assign, n *e8names, out *e8out) string {
+			var hasTree, found bool
+			for _, b := range n.bools {
+				if strings.HasPrefix(b, "isnil(recv.tree") {
+					hasTree, found = !a.B(b), true
+				}
+			}
+			if !found {
+				return "the presence of the child index is never tested"
+			}
+			var idx []e8call
+			for _, cl := range out.in.trace {
+				if cl.fn == "Search" && len(cl.args) >= 3 {
+					idx = append(idx, cl)
+				}
+			}
+			if !hasTree {
+				if len(idx) != 0 {
+					return "the index is searched although there is none"
+				}
+				return ""
+			}
+			if len(idx) != 1 {
+				return fmt.Sprintf("with a child index present it is searched %d times", len(idx))
+			}
+			if !corner(idx[0].args[1], "p0.Min.X", "p0.Min.Y") || !corner(idx[0].args[2], "p0.Max.X", "p0.Max.Y") {
+				return "the index is not searched with the corners of the query rectangle"
+			}
+			for _, cl := range out.in.trace {
+				if strings.HasPrefix(cl.name, "Empty(") || strings.HasPrefix(cl.fn, "IntersectsRect") {
+					return "the linear scan runs although the index is present"
+				}
+			}
+			return ""
+		}}
+	p.runE8(c, row)
+	if treeLit == nil || iterObj == nil {
+		c.Undecided("E10.search", name+"#indexed-callback", p.declPos(fn), "the callback handed to the index was not found")
+		return
+	}
+	p.runE8(c, &e8row{id: name + "#indexed-callback", fn: fn, run: litRun(pkg, treeLit),
+		what: "per index hit: the stored child is handed to the caller's callback and its verdict (continue / stop) is returned",
+		spec: func(a *e8assign, n *e8names, out *e8out) string {
+			got, ok := retBool(out)
+			if !ok {
+				return "no boolean result"
+			}
+			var calls []e8call
+			for _, cl := range out.in.trace {
+				if cl.fn == iterObj.Name() {
+					calls = append(calls, cl)
+				}
+			}
+			if len(calls) != 1 {
+				return fmt.Sprintf("the caller's callback is called %d times per hit", len(calls))
+			}
+			last := ""
+			for _, f := range treeLit.Type.Params.List {
+				for range f.Names {
+					last = fmt.Sprintf("q%d", countParams(treeLit)-1)
+				}
+			}
+			if len(calls[0].args) != 1 || calls[0].args[0] == nil || !strings.Contains(in_valname(calls[0].args[0]), last) {
+				return "the callback does not receive the value stored in the index"
+			}
+			if got != a.B(calls[0].name) {
+				return "the callback's verdict is not returned to the index (early stop is lost or invented)"
+			}
+			return ""
+		}})
+}
+
+func countParams(l *ast.FuncLit) int {
+	n := 0
+	for _, f := range l.Type.Params.List {
+		if len(f.Names) == 0 {
+			n++
+		}
+		n += len(f.Names)
+	}
+	return n
+}
+
+func in_valname(v *val) string {
+	if v == nil {
+		return ""
+	}
+	return v.name
 }
 
 // ruleFolds: ∀-folds of Valid and the Σ-fold of NumPoints.
@@ -915,6 +999,18 @@ func (p *Program) ruleCollectionExists(c *Check) {
 			continue
 		}
 		lit := lits[0]
+		// does the callback stop the search at every hit?  (then a write of `false` on a miss cannot undo an earlier hit)
+		stopsOnHit := true
+		p.runE8(NewCheck("tmp", "quick"), &e8row{id: name + "#step-pre", fn: fn, run: litRun(pkg, lit),
+			spec: func(a *e8assign, nm *e8names, out *e8out) string {
+				got, ok := retBool(out)
+				for _, b := range nm.bools {
+					if strings.Contains(b, "(") && a.B(b) && (!ok || got) {
+						stopsOnHit = false
+					}
+				}
+				return ""
+			}})
 		p.runE8(c, &e8row{id: name + "#step", fn: fn, run: litRun(pkg, lit),
 			what: "per reported child: the verdict becomes true when the child " + method + " the operand; otherwise nothing changes and the search continues",
 			spec: func(a *e8assign, nm *e8names, out *e8out) string {
@@ -940,7 +1036,7 @@ func (p *Program) ruleCollectionExists(c *Check) {
 						return "an intersecting child does not set the verdict"
 					}
 				} else {
-					if fv != nil {
+					if fv != nil && (fv.b || !stopsOnHit) {
 						return "a child that does not intersect changes the verdict"
 					}
 					if !got {
@@ -1023,6 +1119,14 @@ func (p *Program) ruleCollectionExists(c *Check) {
 					return "what the search found is not consulted"
 				}
 				found := a.B(flag)
+				if method == "Intersects" {
+					// entry states in which the verdict is already true are unreachable: the scan stops at the first hit
+					for _, b := range nm.bools {
+						if !strings.ContainsAny(b, "('") && a.B(b) {
+							return ""
+						}
+					}
+				}
 				if method == "Contains" {
 					// a piece no child contains ends the scan with the answer false; otherwise the scan goes on
 					if got != found {
